@@ -309,6 +309,11 @@ func histNew(f []string) vlib.Res {
 	cfg := &config.Config{CacheSize: 1024, Expire: histExpire, CookieSecret: "6c6f6f6b61686172646c6f6f6b6168617264"}
 	cfg.ECS = config.ECSConfig{Enabled: true, ForwardV4Max: 24, ForwardV6Max: 56, MinScopeV4: 24, MinScopeV6: 56,
 		ClientNetworks: []string{"198.51.100.0/24"}, CacheLimitTTL: config.Duration{Duration: time.Duration(capS) * time.Second}}
+	pf := 0
+	if len(f) > 4 {
+		pf = vlib.Atoi(f[4])
+	}
+	cfg.Prefetch = uint32(pf)
 	cfg.DNS64 = config.DNS64Config{Enabled: true, Prefixes: []string{"2001:db8:64::/96"}}
 	h := &histT{ecsCap: capS, known: map[slotKey]*cache.CacheEntry{}, led: map[slotKey]*orec{}, gens: map[slotKey]int{},
 		captured: map[string]*cache.CacheEntry{}, capGen: map[string]int{}, capHad: map[string]bool{}, cuts: map[string]*orec{},
@@ -321,6 +326,10 @@ func histNew(f []string) vlib.Res {
 	reg.Register("upstream", func(c *config.Config) middleware.Handler { return h.up })
 	h.pipe = reg.Build(cfg)
 	middleware.VerifC04AutoWire(h.pipe)
+	if pf > 0 {
+		// real hits claim refreshes; they stay queued until `c pfrun`
+		cache.VerifC04HoldPrefetch(h.c)
+	}
 	h.t0 = time.Now()
 	hist = h
 	return vlib.Res{Impl: "ok"}
@@ -328,10 +337,14 @@ func histNew(f []string) vlib.Res {
 
 // sync makes the entries see now = V seconds + j*tau since the case start.
 func (h *histT) sync() {
-	want := time.Duration(h.V)*time.Second + time.Duration(h.j)*tau - time.Since(h.t0)
+	// syncAt is the real instant that corresponds to the op instant exactly:
+	// everything measured from it (tolerances, the slow-op rule, leases the
+	// upstream reports) includes the time the shift itself takes
+	at := time.Now()
+	want := time.Duration(h.V)*time.Second + time.Duration(h.j)*tau - at.Sub(h.t0)
 	cache.VerifShift(h.c, want-h.shift)
 	h.shift = want
-	h.syncAt = time.Now()
+	h.syncAt = at
 }
 
 // tol: how far a stored timestamp of this op may lie after the op instant.
@@ -412,6 +425,7 @@ type recTok struct {
 	ttl   int64
 	mark  int
 	typ   uint16
+	tgt   string // CNAME: the piece it points at
 	fresh bool // relayed from the upstream answer of this very op (not from the cache)
 }
 
@@ -494,7 +508,15 @@ func replyRecs(qtok string, m *dns.Msg, side byte) []recTok {
 		return o
 	}
 	for _, rr := range m.Answer {
-		out = append(out, recTok{tok: tokOf(rr.Header().Name, false), ttl: int64(rr.Header().Ttl), mark: markOf(rr), typ: rr.Header().Rrtype})
+		rt := recTok{tok: tokOf(rr.Header().Name, false), ttl: int64(rr.Header().Ttl), mark: markOf(rr), typ: rr.Header().Rrtype}
+		if cn, ok := rr.(*dns.CNAME); ok {
+			if lo := strings.ToLower(cn.Target); strings.HasSuffix(lo, ".pz.test.") {
+				rt.tgt = "p" + strings.TrimSuffix(strings.TrimPrefix(lo, "w"), ".pz.test.")
+			} else {
+				rt.tgt = tokOf(cn.Target, false)
+			}
+		}
+		out = append(out, rt)
 	}
 	for _, sect := range [][]dns.RR{m.Ns, m.Extra} {
 		for _, rr := range sect {
@@ -591,6 +613,18 @@ func (h *histT) changes() []change {
 }
 
 func (h *histT) listing(chs []change) string {
+	rank := func(k slotKey) int {
+		n := int(k.tok[1]-'0') * 2
+		if k.tok[0] == 'm' {
+			n += 2 * nNames
+		}
+		if k.scoped {
+			n++
+		}
+		return n
+	}
+	chs = append([]change(nil), chs...)
+	sort.SliceStable(chs, func(a, b int) bool { return rank(chs[a].k) < rank(chs[b].k) })
 	var parts []string
 	for _, c := range chs {
 		if c.gone {
@@ -617,8 +651,8 @@ func fail(sig, format string, a ...any) string {
 	if i := strings.Index(sig, "/piece-"); i >= 0 {
 		sig = sig[:i] + "/piece"
 	}
-	if i := strings.Index(sig, "-piece-"); i >= 0 {
-		sig = sig[:i] + "-piece"
+	if i := strings.Index(sig, "-exceeds-piece-"); i >= 0 {
+		sig = sig[:i] + "-exceeds-piece"
 	}
 	return "FAIL sig=" + sig + " " + fmt.Sprintf(format, a...)
 }
@@ -782,6 +816,41 @@ func chainOrder(recs []recTok) []string {
 	return order
 }
 
+// recordlessTerminal: when a composed reply is NXDOMAIN and the piece its last
+// CNAME points at contributed no record at all, that piece is a record-less
+// NXDOMAIN (no SOA, no proof) whose rcode the alias chain adopted — a consumed
+// piece the reply's records do not show.
+func recordlessTerminal(recs []recTok, nx bool) string {
+	if !nx {
+		return ""
+	}
+	last := ""
+	for _, r := range recs {
+		if !r.ns && r.tgt != "" {
+			last = r.tgt
+		}
+	}
+	if last == "" || !isNameTok(last) {
+		return ""
+	}
+	for _, r := range recs {
+		if r.tok == last {
+			return ""
+		}
+	}
+	return last
+}
+
+// chainAfterOrSelf: non-empty iff tok is a piece of the composed reply.
+func chainAfterOrSelf(recs []recTok, tok string) []string {
+	for _, r := range recs {
+		if r.tok == tok {
+			return []string{tok}
+		}
+	}
+	return nil
+}
+
 // chainAfter: the pieces that follow tok in the composed reply.
 func chainAfter(recs []recTok, tok string) []string {
 	var order []string
@@ -803,7 +872,7 @@ func chainAfter(recs []recTok, tok string) []string {
 }
 
 // register: oracle bookkeeping for the slots that changed in this op.
-func (h *histT) register(chs []change, script map[string]*specT, recs []recTok, freshCalls map[string]int, refresh bool) string {
+func (h *histT) register(chs []change, script map[string]*specT, recs []recTok, freshCalls map[string]int, refresh bool, replyNX bool) string {
 	verdict := ""
 	for _, c := range chs {
 		if c.gone {
@@ -864,6 +933,23 @@ func (h *histT) register(chs []change, script map[string]*specT, recs []recTok, 
 					if rem := p.admitV + p.life - h.V; rem < life {
 						life, lim = rem, "piece-"+t
 					}
+				}
+				// a piece fetched in this very op was learned through its own
+				// delegation chain: its lease bounds what is composed from it
+				if fsp := script[t]; fsp != nil && freshCalls[t] > 0 && fsp.lease != nil && *fsp.lease < life {
+					life, lim = *fsp.lease, "piece-lease"
+				}
+			}
+			// the record-less NXDOMAIN an alias chain ends in
+			if t := recordlessTerminal(recs, replyNX); t != "" && t != c.k.tok && len(chainAfterOrSelf(recs, c.k.tok)) > 0 {
+				if freshCalls[t] == 0 {
+					if p := h.led[slotKey{t, false}]; p != nil {
+						if rem := p.admitV + p.life - h.V; rem < life {
+							life, lim = rem, "piece-"+t
+						}
+					}
+				} else if fsp := script[t]; fsp != nil && fsp.lease != nil && *fsp.lease < life {
+					life, lim = *fsp.lease, "piece-lease"
 				}
 			}
 		}
@@ -947,6 +1033,8 @@ func execHist(f []string) vlib.Res {
 		return h.prec(f[2], f[3], f[4])
 	case "get":
 		return h.storeGet(f[2])
+	case "pfrun":
+		return h.pfrun(f[2])
 	}
 	return vlib.Res{Impl: "bad-op"}
 }
@@ -1008,8 +1096,30 @@ func (h *histT) query(route, tok string, ecs, do bool, up string) vlib.Res {
 		or = h.judgeReply(tok, recs, calls, comp)
 	}
 
-	if v := h.register(chs, script, recs, calls, false); or == "" {
+	if v := h.register(chs, script, recs, calls, false, reply != nil && reply.Rcode == dns.RcodeNameError); or == "" {
 		or = v
+	}
+	// a hit that shows no record of the asked name's own entry (a record-less
+	// NXDOMAIN / empty answer) is judged by that entry itself
+	if or == "" && strings.HasPrefix(head, "hit") && isNameTok(tok) && side == tok[0] && len(chainAfterOrSelf(recs, tok)) == 0 {
+		var live, any *orec
+		for _, sc := range []bool{true, false} {
+			if sc && !ecs {
+				continue
+			}
+			if o := h.led[slotKey{tok, sc}]; o != nil {
+				any = o
+				if h.V < o.admitV+o.life {
+					live = o
+				}
+			}
+		}
+		switch {
+		case any == nil:
+			or = fail("c/hit/served-without-an-admission", "record-less reply for %s", tok)
+		case live == nil:
+			or = fail("c/hit/served-past-lifetime/"+any.lim, "record-less reply for %s at=%ds admitted=%ds lifetime=%ds", tok, h.V, any.admitV, any.life)
+		}
 	}
 	// (after register: a NODATA fetched in this op is in the ledger now)
 	if synth64 && !basis64 && or == "" {
@@ -1110,7 +1220,7 @@ func (h *histT) pfdone(tok, up string) vlib.Res {
 	if replaced && stale {
 		or = fail("c/pfdone/late-refresh-overwrote-newer-state", "name=%s captured-gen=%d current-gen=%d", tok, h.capGen[tok], genBefore)
 	}
-	if v := h.register(chs, script, nil, map[string]int{}, true); or == "" {
+	if v := h.register(chs, script, nil, map[string]int{}, true, false); or == "" {
 		or = v
 	}
 	if or == "" {
@@ -1378,4 +1488,51 @@ func (h *histT) storeGet(tok string) vlib.Res {
 		impl += " " + t
 	}
 	return vlib.Res{Impl: impl + " bound=" + bound, Oracle: or, Tags: "r=get,nt"}
+}
+
+
+// pfrun: `c pfrun <up>` completes every refresh that real hits claimed since
+// the last run (PrefetchQueue.processPrefetch on the queued requests, in
+// order, against the scripted upstream).
+func (h *histT) pfrun(up string) vlib.Res {
+	h.j++
+	script := h.setScript(up)
+	reqs := cache.VerifC04DrainPrefetch(h.c)
+	waitRoom()
+	h.sync()
+	h.up.base, h.up.at = time.Now().Unix(), h.syncAt
+	or := ""
+	stale := 0
+	var all []change
+	for _, r := range reqs {
+		tok := strings.TrimSuffix(strings.ToLower(r.Request.Question[0].Name), ".z.test.")
+		if r.Request.Question[0].Qtype == dns.TypeAAAA {
+			tok = "m" + tok[1:]
+		}
+		k := slotKey{tok, false}
+		wasCurrent := r.Entry != nil && h.known[k] == r.Entry
+		cache.VerifC04RunPrefetch(h.c, r)
+		chs := h.changes()
+		for _, c := range chs {
+			if c.k == k && !c.gone && !wasCurrent && or == "" {
+				or = fail("c/pfrun/late-refresh-overwrote-newer-state", "name=%s", tok)
+			}
+		}
+		if !wasCurrent {
+			stale++
+		}
+		if v := h.register(chs, script, nil, map[string]int{}, true, false); or == "" {
+			or = v
+		}
+		all = append(all, chs...)
+	}
+	h.settle(len(all) > 0)
+	if or == "" {
+		or = "ok"
+	}
+	tags := fmt.Sprintf("nt,pfrun,claimed=%d", len(reqs))
+	if stale > 0 {
+		tags += ",stale-refresh"
+	}
+	return vlib.Res{Impl: fmt.Sprintf("pf n=%d%s", len(reqs), h.listing(all)), Oracle: or, Tags: tags}
 }
